@@ -683,9 +683,11 @@ pub fn gen_stake(r: &mut Rng, w: &mut Wallet, cx: &Ctx) -> Option<Transaction> {
         2 => epoch.saturating_sub(1),
         _ => epoch + 1 + r.below(2),
     };
-    let e_post_end = match r.below(8) {
+    let e_post_end = match r.below(10) {
         0 => e_start,
         1 => e_start.saturating_sub(1),
+        // "staked for good": ends at the top of the u64 range, or around the point where a signed reading flips
+        8 => *r.pick(&[u64::MAX, u64::MAX - 1, 1u64 << 63, (1u64 << 63) - 1, (1u64 << 63) + 1, 1u64 << 32]),
         _ => e_start + 1 + r.below(2),
     };
     let declared = if r.chance(1, 8) { amount + 1 } else { amount };
